@@ -14,7 +14,7 @@
    actually served. *)
 From Coq Require Import List ZArith Bool.
 From GoHls Require Import Model.Mux Proofs.MuxStream Proofs.MuxLift Proofs.MuxWindow Proofs.MuxHistory
-  Proofs.MuxPlaylist Proofs.MuxMulti Proofs.MuxBandwidth.
+  Proofs.MuxPlaylist Proofs.MuxMulti Proofs.MuxBandwidth Proofs.MuxLogStep Proofs.MuxSpanHist Proofs.MuxAuditAddsEx.
 Import ListNotations.
 Local Open Scope Z_scope.
 
@@ -92,3 +92,15 @@ Theorem c16_bandwidth_is_peak_and_mean : forall segs mx avg,
   /\ (dur <= 0 -> mx = 0 /\ avg = 0).
 Proof. exact bandwidth_is_peak_and_mean. Qed.
 Print Assumptions c16_bandwidth_is_peak_and_mean.
+
+(* non-vacuity: a reachable state (H264 + AAC, Low-Latency, two complete segments) with one DEFAULT rendition, one
+   variant pointing at the leading stream and a non-zero BANDWIDTH *)
+Theorem c16_example_nonvacuous : exists m0 mv,
+  start ex_cfg = Ok m0
+  /\ let m := mux_run m0 sp_ops in
+     count_rd (m_streams m) = 1%nat /\ map st_default (m_streams m) = [false; true]
+     /\ gen_multivariant m = Ok (Some mv)
+     /\ (mv_bandwidth mv, mv_avg mv, mv_uri mv, map r_default (mv_renditions mv), map r_hasuri (mv_renditions mv))
+        = (2400, 2400, Some (true, 1), [true], [true]).
+Proof. exact multivariant_example. Qed.
+Print Assumptions c16_example_nonvacuous.
